@@ -29,6 +29,7 @@ type cacheAction struct {
 	Q        []float32     `json:"q,omitempty"`
 	K        int64         `json:"k,omitempty"`
 	Eligible []uint64      `json:"eligible,omitempty"`
+	Plain    bool          `json:"plain,omitempty"` // search: run a plain Search even through a filtering-capable handle
 }
 
 type cacheCase struct {
@@ -78,6 +79,7 @@ func genCacheCase(t *rapid.T) cacheCase {
 			axis := rapid.IntRange(0, 3).Draw(t, al+"axis")
 			a.Q[axis] = float32(rapid.SampledFrom([]int{1, -1}).Draw(t, al+"sign"))
 			a.Eligible = rapid.SliceOfNDistinct(rapid.Uint64Range(0, uint64(min(nd, 10)-1)), 0, 6, rapid.ID[uint64]).Draw(t, al+"elig")
+			a.Plain = rapid.Bool().Draw(t, al+"plain")
 		case "close":
 			a.Handle = rapid.IntRange(0, 30).Draw(t, al+"h")
 		}
@@ -157,13 +159,13 @@ func runCacheCase(c cacheCase) *Violation {
 		}
 	}()
 
-	fresh := func(h *openHandle, q []float32, k int64, eligible []uint64) ([]vecPair, error) {
+	fresh := func(h *openHandle, q []float32, k int64, useFilter bool, eligible []uint64) ([]vecPair, error) {
 		o, err := drive.Open(path)
 		if err != nil {
 			return nil, err
 		}
 		defer o.Close()
-		return vecSearch(o, h.field, q, k, drive.Bitmap(h.except), h.filter, eligible)
+		return vecSearchOpen(o, h.field, q, k, drive.Bitmap(h.except), h.filter, useFilter, eligible)
 	}
 
 	var handles []*openHandle
@@ -206,7 +208,8 @@ func runCacheCase(c cacheCase) *Violation {
 				}
 				q := queryFor(vf, a.Q)
 				var eligible []uint64
-				if h.filter {
+				useFilter := h.filter && !a.Plain
+				if useFilter {
 					ex := dropSet(h.except)
 					for _, d := range a.Eligible {
 						if !ex[d] && d < uint64(want.Count) {
@@ -214,15 +217,15 @@ func runCacheCase(c cacheCase) *Violation {
 						}
 					}
 				}
-				got, err := searchHandle(h.vi, q, a.K, h.filter, eligible)
+				got, err := searchHandle(h.vi, q, a.K, useFilter, eligible)
 				if err != nil {
 					return fmt.Errorf("%s: %w", where, err)
 				}
-				exp, err := fresh(h, q, a.K, eligible)
+				exp, err := fresh(h, q, a.K, useFilter, eligible)
 				if err != nil {
 					return fmt.Errorf("%s: fresh copy: %w", where, err)
 				}
-				desc := fmt.Sprintf("%s: field %q q=%v k=%d except=%v filter=%v eligible=%v", where, h.field, q, a.K, h.except.Docs, h.filter, eligible)
+				desc := fmt.Sprintf("%s: field %q q=%v k=%d except=%v handle-filtering=%v filtered-search=%v eligible=%v", where, h.field, q, a.K, h.except.Docs, h.filter, useFilter, eligible)
 				if fmt.Sprint(got) != fmt.Sprint(exp) {
 					v = violation(prop, "cache/history-dependent-answer", "%s: the handle answered %v, a freshly opened copy of the same file answers %v", desc, got, exp)
 					return nil
@@ -232,7 +235,7 @@ func runCacheCase(c cacheCase) *Violation {
 				for _, d := range eligible {
 					el[d] = true
 				}
-				live := func(d uint64) bool { return !ex[d] && (!h.filter || el[d]) }
+				live := func(d uint64) bool { return !ex[d] && (!useFilter || el[d]) }
 				if m := vecOracle(vf.Entries, vf.Metric, q, a.K, live, isExact(vf), got); m != "" {
 					v = violation(prop, "cache/search-mismatch", "%s: %s", desc, m)
 					return nil
